@@ -697,7 +697,7 @@ func checkStubInstalledWithContinuation(p *Prog, r *Report, rule string, only fu
 		check(f)
 		eachInstr(f, func(i ssa.Instruction) {
 			if ci, ok := i.(ssa.CallInstruction); ok {
-				if cal := staticCallee(ci.Common()); cal != nil && relPkg(cal) == "" && cal.Name() == "whens" {
+				if cal := staticCallee(ci.Common()); cal != nil && relPkg(cal) == "" && cal.Blocks != nil && cal.Signature.Recv() != nil && (cal.Object() == nil || !cal.Object().Exported()) {
 					check(cal)
 				}
 			}
